@@ -27,6 +27,7 @@ package dag
 //@        && ($iter1 == 8 ==> step == parseLamportClock)
 //@   ensures [parsed-with-exactly-one-signature] isNilIface(result.1) ==> isNilIface(ret(call jws.Parse #1).1) && arg(call jws.Parse #1, 0) == input
 //@        && len(ret(call (jws.Message).Signatures #1)) == 1
+//@   ensures [only-the-canonical-compact-form] isNilIface(result.1) ==> did(call crypto.CheckCompactJWS #1) && isNilIface(ret(call crypto.CheckCompactJWS #1)) && arg(call crypto.CheckCompactJWS #1, 0) == input
 //@   ensures [all-nine-steps-passed] isNilIface(result.1) ==> $iter1 == 9
 //@   ensures [error-iff-no-transaction] isNilIface(result.1) <==> !isNilIface(result.0)
 
@@ -63,6 +64,11 @@ package dag
 //@   prop C06 C17
 //@   ensures [exactly-one-of-jwk-and-kid] isNilIface(result) ==> (isNilIface(transaction.signingKey) != (transaction.signingKeyID == ""))
 //@   ensures [algorithm-recorded] isNilIface(result) ==> transaction.signingAlgorithm == headers.Algorithm()
+// RFC004 3.1: the embedded key is a public key (C17: embedded private keys are refused).
+//@   ensures [embedded-key-is-not-private] isNilIface(result) && headers.Get(jws.JWKKey).1 ==>
+//@        !implements(headers.Get(jws.JWKKey).0, jwk.RSAPrivateKey) && !implements(headers.Get(jws.JWKKey).0, jwk.ECDSAPrivateKey)
+//@        && !implements(headers.Get(jws.JWKKey).0, jwk.OKPPrivateKey) && !implements(headers.Get(jws.JWKKey).0, jwk.SymmetricKey)
+//@        && transaction.signingKey == headers.Get(jws.JWKKey).0.(jwk.Key)
 
 //@ func parseSigningTime
 //@   prop C06
